@@ -32,3 +32,23 @@ From PyDBML Require Import GenFns GenFnTie.
 Theorem C08_doublequote_string_regenerated_from_source : forall s, gen_doublequote_string s = doublequote_string s.
 Proof. exact gen_doublequote_string_is_model. Qed.
 Print Assumptions C08_doublequote_string_regenerated_from_source.
+
+(* ---- what the parsing phase can raise ---- *)
+(* proofs/Raises.v: [run_raises] — for every grammar, fuel, input and action table, an outcome PRaise ex of the interpreter is an
+   exception some parse action returned (or the model's own EStuck 300); [act_raises_only] — the parse actions of model/Actions.v raise
+   only KeyError, SyntaxError, TypeError, ValueError (and the model's stuck markers outside its float window).  Hence the first phase
+   of PyDBMLParser.parse (pyparsing run + parse_blueprint) raises nothing but: ParseException, ParseSyntaxException, those four,
+   RuntimeError from parse_blueprint, and the model's markers (EStuck 500 = fuel, 300, 310, 311, 399). *)
+From PyDBML Require Import PP Actions Build Entry Raises.
+Theorem C08_parsing_phase_raises_only_listed_exceptions :
+  forall (source : pystr) (allow : bool) (h h' : heap) ex,
+    blueprints_of source allow h = (h', Raise ex) -> In ex parse_phase_excs.
+Proof. exact blueprints_of_raises_only. Qed.
+Print Assumptions C08_parsing_phase_raises_only_listed_exceptions.
+
+Theorem C08_interpreter_raises_only_what_actions_raise :
+  forall env act src (P : exc -> Prop),
+    (forall fn s loc r ex, act fn s loc r = ARRaise ex -> P ex) -> P (EStuck 300) ->
+    forall f doact e p cp ex, run env act src f doact e p cp = PRaise ex -> P ex.
+Proof. intros env act src P Ha Hs f doact e p cp ex H. exact (run_raises env act src P Ha Hs f doact e p cp ex H). Qed.
+Print Assumptions C08_interpreter_raises_only_what_actions_raise.
